@@ -1,6 +1,7 @@
 /* all arguments nondeterministic: the contract's requires clauses (is_fresh, lengths,
  * data invariants) define the domain; pointers are allocated by __CPROVER_is_fresh */
 void harness(void) {
+  VERIF_PROLOGUE();
   uint8_t *bytes_out;
   uint32_t *cv_words;
   store_cv_words(bytes_out, cv_words);
